@@ -472,7 +472,7 @@ func runHashCorrespondence(f lib.Flags, res *lib.Result, drv *lib.Driver, r *lib
 	for i, c := range cases {
 		lines[i] = c.line
 	}
-	outs, err := drv.AskAll(lines)
+	outs, err := askAllDeadline(drv, lines)
 	if err != nil {
 		res.Fatalf("driver: %v", err)
 		return
